@@ -34,6 +34,14 @@ type Plan struct {
 	root       *selectionPlan
 	isMutation bool
 
+	// planning holds the field ASTs whose sub-selections are being planned right
+	// now (on the planning stack). In a validated document a field can never be
+	// reached again while it is being planned; in an unvalidated one with cyclic
+	// fragment spreads it can, and the cycle is cut there instead of recursing
+	// forever. Plan-time use is single-threaded; execute-time use happens under
+	// abstractMu.
+	planning map[*ast.Field]bool
+
 	// abstractMu guards lazy population of fieldPlan.abstractAlternatives,
 	// which happens at execute time (concurrently across fields) the
 	// first time each concrete type is encountered for an abstract field.
@@ -244,6 +252,25 @@ func (p *Plan) abstractAlternative(fp *fieldPlan, runtimeType *Object) *selectio
 // selectionPlan that mirrors what completeObjectValue's runtime
 // collectFields loop would produce.
 func (p *Plan) planMergedSelectionsForType(parentType *Object, fieldASTs []*ast.Field) *selectionPlan {
+	for _, f := range fieldASTs {
+		if f != nil && p.planning[f] {
+			// cyclic fragment spreads through a field (document not validated)
+			return nil
+		}
+	}
+	if p.planning == nil {
+		p.planning = map[*ast.Field]bool{}
+	}
+	for _, f := range fieldASTs {
+		if f != nil {
+			p.planning[f] = true
+		}
+	}
+	defer func() {
+		for _, f := range fieldASTs {
+			delete(p.planning, f)
+		}
+	}()
 	sp := &selectionPlan{parentType: parentType}
 	keyed := map[string]int{}
 	visited := map[string]bool{}
